@@ -218,7 +218,10 @@ func cloneDoc(d ldoc) ldoc {
 // ---- fixed small documents (the shapes named in the property's rationale) -------------
 
 func h(lv int, t string) lelem { return lelem{Kind: "h", Level: lv, Text: t} }
-func para(t string) lelem      { return lelem{Kind: "p", Text: t} }
+
+// hp is a heading delivered as a paragraph that matches a Layout heading of its page.
+func hp(lv int, t string) lelem { return lelem{Kind: "h", Level: lv, Text: t, TOC: true} }
+func para(t string) lelem       { return lelem{Kind: "p", Text: t} }
 
 func fixedDocs() map[string]ldoc {
 	one := func(es ...lelem) ldoc { return ldoc{Pages: []lpage{{Number: 1, Elems: es}}} }
@@ -240,6 +243,19 @@ func fixedDocs() map[string]ldoc {
 			{Number: 6, Elems: []lelem{h(3, "hi14z"), para("pf15z")}},
 			{Number: 7, Elems: []lelem{h(6, "hj16z"), para("pg17z")}},
 			{Number: 8, Elems: []lelem{h(6, "hk18z"), para("ph19z")}}}},
+		// the same heading text under every chapter, on different pages, all headings
+		// delivered as heading-like paragraphs (the PDF path)
+		"repeat-toc-pages": {Pages: []lpage{
+			{Number: 1, Elems: []lelem{hp(1, "ha1z"), hp(2, "hov2z"), para("pa3z")}},
+			{Number: 2, Elems: []lelem{hp(1, "hb4z"), hp(2, "hov2z"), para("pb5z"), hp(2, "hsu6z"), para("pc7z")}},
+			{Number: 3, Elems: []lelem{hp(1, "hc8z"), hp(2, " hov2z "), para("pd9z"), hp(2, "hsu6z"), para("pe10z")}}}},
+		// recurring texts on one page and across pages, at the same and at other levels,
+		// as elements and as heading-like paragraphs, a chapter title recurring as a subsection
+		"repeat-mixed": {Pages: []lpage{
+			{Number: 1, Elems: []lelem{h(1, "ha1z"), hp(2, "hov2z"), para("pa3z"), h(2, "hb4z"), hp(3, "hov2z"), para("pb5z"), hp(4, "hov2z"), para("pc6z")}},
+			{Number: 2, Elems: []lelem{h(2, "hov2z"), para("pd7z"), hp(1, "hc8z"), hp(2, "hov2z"), para("pe9z"), hp(3, "ha1z"), para("pf10z")}},
+			{Number: 4, NoLayout: true, Elems: []lelem{h(1, "hc8z"), h(3, "hov2z"), para("pg11z")}},
+			{Number: 5, Elems: []lelem{hp(3, "hov2z"), para("ph12z"), hp(3, "hov2z"), para("pi13z"), hp(1, "hov2z"), para("pj14z")}}}},
 		"two-pages": {Pages: []lpage{{Number: 1, Elems: []lelem{h(1, "ha1z"), para("pa2z")}}, {Number: 2}, {Number: 3, Elems: []lelem{para("pb3z"), h(2, "hb4z"),
 			{Kind: "l", Items: []litem{{0, "la5z"}, {1, "lb6z"}, {0, "lc7z"}}}, {Kind: "t", Rows: [][]string{{"ta8z", "tb9z"}, {"tc10z", "td11z"}}}, {Kind: "i", Text: "ia12z"}}}}},
 	}
@@ -251,10 +267,71 @@ func fixedDocs() map[string]ldoc {
 // the Lean driver in one run (every case goes through the oracles regardless).
 var tieBudget int
 
+// repeatIdx: cases with an index from repeatFrom on are documents in which heading
+// texts recur (tokGen.repeat).
+const repeatFrom = 4000000
+
+func repeatIdx(idx int) bool { return idx >= repeatFrom }
+
+// countRepeats records how heading texts recur in d: on another page, on the same
+// page, at another level, under another parent, as heading-like paragraphs.
+func countRepeats(c *hx.Ctx, mode string, d ldoc) {
+	type occ struct {
+		page, level int
+		toc         bool
+		parent      string
+	}
+	seen := map[string][]occ{}
+	var hs []hd
+	for _, lp := range d.Pages {
+		for _, e := range lp.Elems {
+			if e.Kind != "h" || strip(e.Text) == "" {
+				continue
+			}
+			parent := strings.Join(enclosing(append(append([]hd(nil), hs...), hd{e.Level, ""})), "/")
+			hs = append(hs, hd{e.Level, e.Text})
+			t := strings.TrimSpace(e.Text)
+			seen[t] = append(seen[t], occ{lp.Number, e.Level, e.TOC && !lp.NoLayout, parent})
+		}
+	}
+	var any, otherPage, samePage, otherLevel, otherParent, tocLater, tocSamePageOtherLevel bool
+	for _, os := range seen {
+		for j := 1; j < len(os); j++ {
+			any = true
+			for i := 0; i < j; i++ {
+				if os[i].page != os[j].page {
+					otherPage = true
+					if os[j].toc {
+						tocLater = true
+					}
+				} else {
+					samePage = true
+					if os[i].level != os[j].level && os[j].toc {
+						tocSamePageOtherLevel = true
+					}
+				}
+				if os[i].level != os[j].level {
+					otherLevel = true
+				}
+				if os[i].parent != os[j].parent {
+					otherParent = true
+				}
+			}
+		}
+	}
+	for name, v := range map[string]bool{"any": any, "on-another-page": otherPage, "on-the-same-page": samePage, "at-another-level": otherLevel,
+		"under-another-parent": otherParent, "as-heading-like-paragraph-on-a-later-page": tocLater,
+		"as-heading-like-paragraph-on-the-same-page-at-another-level": tocSamePageOtherLevel} {
+		if v {
+			c.Count(mode + "/repeated-heading-text/" + name)
+		}
+	}
+}
+
 func runIndex(c *hx.Ctx, idx int, mode string) {
 	r := c.Rng.Fork(uint64(idx))
 	sz := pickSize(r)
-	d := genDoc(r, sz)
+	d := genDoc(r, sz, repeatIdx(idx))
 	k := kase{Seed: c.Seed, Index: idx, Mode: mode}
 	tie := false
 	if n := textBytes(d); n <= tieBudget && (n <= 40000 || idx%16 == 0) {
@@ -282,6 +359,10 @@ func runIndex(c *hx.Ctx, idx int, mode string) {
 	case "layout":
 		runLayoutCase(c, k, d, r, tie)
 	}
+	if repeatIdx(idx) {
+		mode += "-repeat"
+		countRepeats(c, mode, d)
+	}
 	c.Count(fmt.Sprintf("%s/pages=%d", mode, len(d.Pages)))
 	switch {
 	case nh == 0:
@@ -295,7 +376,7 @@ func runIndex(c *hx.Ctx, idx int, mode string) {
 }
 
 func Run(c *hx.Ctx) {
-	c.Rep.Rule = "random logical documents (0-9 pages, 0-8 elements per page: headings of levels 1-6 in any order, paragraphs of 1 word .. 4x the configured maximum, nested ordered/unordered lists, ragged tables, images with/without alt text, empty pages, pages without layout, non-consecutive page numbers, heading-like paragraphs matched through the table of contents) built as model.Document with Elements and Layout filled consistently; every text is made of words unique in the document; x all size presets and random custom size configurations (characters, tokens, words, sentences, paragraphs) x both chunkers (layout-based chunker with default, RAG-optimized and random ChunkerConfig); plus outline documents (heading nesting 2-6 deep, 2-4 sibling sections under one parent at every depth, each with its own body, one section per page or several, skipped and uneven sibling levels) through the element-based chunker and through the layout-based chunker under every MinHeadingLevel 1..6 with random non-size options; non-trivial = at least one element"
+	c.Rep.Rule = "random logical documents (0-9 pages, 0-8 elements per page: headings of levels 1-6 in any order, paragraphs of 1 word .. 4x the configured maximum, nested ordered/unordered lists, ragged tables, images with/without alt text, empty pages, pages without layout, non-consecutive page numbers, heading-like paragraphs matched through the table of contents) built as model.Document with Elements and Layout filled consistently; every text is made of words unique in the document; x all size presets and random custom size configurations (characters, tokens, words, sentences, paragraphs) x both chunkers (layout-based chunker with default, RAG-optimized and random ChunkerConfig); plus outline documents (heading nesting 2-6 deep, 2-4 sibling sections under one parent at every depth, each with its own body, one section per page or several, skipped and uneven sibling levels) through the element-based chunker and through the layout-based chunker under every MinHeadingLevel 1..6 with random non-size options; plus the same three families (random, layout, outline) and HTML files with recurring heading texts: about half of the headings take the text of an earlier heading (a few texts recur often, as \"Overview\" under every chapter) under other parents, on other pages and on the same page, at the same and at other levels, about half of them delivered as heading-like paragraphs matched through Layout.Headings and the rest as model.Heading elements, all other texts unique, a repeated heading being identified by its position among the occurrences of its text; non-trivial = at least one element"
 	fd := fixedDocs()
 	for _, name := range hx.SortedKeys(fd) {
 		d := fd[name]
@@ -318,6 +399,22 @@ func Run(c *hx.Ctx) {
 	tieBudget = c.N(1500000, 15000000)
 	for i := 0; i < q; i++ {
 		runNested(c, 3000000+i)
+	}
+	// the same three families with recurring heading texts
+	n = c.N(600, 6000)
+	tieBudget = c.N(1500000, 15000000)
+	for i := 0; i < n; i++ {
+		runIndex(c, repeatFrom+i, "doc")
+	}
+	m = c.N(300, 3000)
+	tieBudget = c.N(800000, 8000000)
+	for i := 0; i < m; i++ {
+		runIndex(c, repeatFrom+1000000+i, "layout")
+	}
+	q = c.N(100, 1000)
+	tieBudget = c.N(1000000, 10000000)
+	for i := 0; i < q; i++ {
+		runNested(c, repeatFrom+2000000+i)
 	}
 	runEndToEnd(c)
 }
